@@ -357,6 +357,24 @@ func TestC03(t *testing.T) {
 			c03IPA.EvalCase(s, c03IPACase{Poly: polySpec{Kind: "dense", Seed: uint64(1000*hx.Seed() + hx.Shard())}, Point: pt, Rep: hx.Shard() % 4, Label: "b"})
 		}
 	}
+	// single openings whose quotient has a STRUCTURED coefficient: f is zero except f(z+1) = v, opened at z, so the
+	// quotient's coefficient at z+1 is v itself and D = Commit(quotient) meets the recoding edge cases of the tables
+	targets := []scalarSpec{
+		{Kind: "pow2m1", N: 63}, {Kind: "pow2m1", N: 127}, {Kind: "pow2m1", N: 191}, {Kind: "pow2", N: 64}, {Kind: "pow2", N: 63},
+		{Kind: "word", N: 0}, {Kind: "word", N: 1}, {Kind: "word", N: 2, Seed: 9},
+		{Kind: "limbs", Digits: []int{3, 3, 0, 0}}, {Kind: "limbs", Digits: []int{2, 3, 3, 0}}, {Kind: "limbs", Digits: []int{0, 3, 0, 1}},
+		{Kind: "windows", W: 8, Digits: []int{5, 5, 5, 5, 5, 5, 5, 4}}, {Kind: "windows", W: 16, Digits: []int{3, 5, 5, 5, 4}},
+		{Kind: "rminus", N: 0}, {Kind: "montraw", N: 5}, {Kind: "small", N: 32768},
+	}
+	for i, tg := range targets {
+		for j, pos := range []int{3, 100} {
+			if hx.Thorough() || hx.Sharded(2*i+j) {
+				set := openSet{Label: "q", Shape: "forced:structured_quotient", Polys: []polySpec{{Kind: "recipe", Idx: []int{pos}, Vals: []scalarSpec{tg}}},
+					Open: []opening{{Poly: 0, Z: pos - 1}}}
+				c03Multi.EvalCase(s, c03Case{Set: set, Rep2: (i + j) % 4})
+			}
+		}
+	}
 	c03Multi.Run(s, hx.PerShard(hx.Pick(480, 6400)))
 	c03IPA.Run(s, hx.PerShard(hx.Pick(160, 2400)))
 }
